@@ -69,14 +69,19 @@ def strictSpec (progS : Sexp) (valsS : List Sexp) : Sexp :=
   | some p, some vals =>
     -- values with null / undefined anywhere are not judged: validators read the two leniently (S4), the reference
     -- exactly, and the difference can move a value from one union member to another
+    -- … and a value is judged only when reading a missing property as missing or as `undefined` (what validators do:
+    -- `{ kind: "c"; b: unknown }` accepts `{ kind: "c" }`) makes no difference: otherwise the member that accepts it in
+    -- strict mode may be one the exact reference does not see
     let bits (exact : Bool) (t : Ty) : String :=
-      String.ofList (vals.map fun v => if hasNullish v then '?' else match SubSpec.memR p.decls exact 60 t v with
-        | some true => '1' | some false => '0' | none => '?')
+      String.ofList (vals.map fun v => if hasNullish v then '?' else
+        match SubSpec.memRG p.decls exact false 60 t v, SubSpec.memRG p.decls exact true 60 t v with
+        | some true, some true => '1' | some false, some false => '0' | _, _ => '?')
     let split := match compile p with
       | .ok env parsers => parsers.any fun e => !(RT.noSplitIntersection env e.2)
       | _ => false
     .list [.list (.atom "spec" :: p.exports.map fun e => .list [.atom e.1, .str (bits false e.2), .str (bits true e.2)]),
-      .list (.atom "hyp-failed" :: (if split then [Sexp.atom "NoSplitIntersection"] else []))]
+      .list (.atom "hyp-failed" :: ((if split then [Sexp.atom "NoSplitIntersection"] else []) ++
+        (if Spec.noNumberKey p then [] else [Sexp.atom "NoNumberKey"])))]
   | _, _ => .list [.atom "spec-decode-error"]
 
 end BeffVerif.Driver
